@@ -86,9 +86,55 @@ def _table(w):
     return tab, want, skip
 
 
+def _reported(w):
+    """End to end on the real build (fitting phases scripted from the witness, as in C06): every reported
+    per-point value against the Gaussian log-density under the RETURNED MRF and the mean of that cluster in
+    the model the call ended with."""
+    from . import c06
+    try:
+        res, st, data, beta, T, K, n, lens, joint = c06._run(w)
+    except Exception as exc:
+        return {'reproduced': True, 'signature': 'run-raises', 'observed': {'raised': repr(exc)}}
+    labs = [int(x) for x in res.point_labels]
+    order = [i for k in range(K) for i in range(T) if labs[i] == k]
+    got = [float(v) for v in res.all_log_likelihood]
+    # the model the call ended with: its means were captured when the likelihood report was made
+    import fast_ticc.main_loop as ml_mod
+    want = []
+    for i in order:
+        k = labs[i]
+        want.append(float(c06._logpdf(data[i], _final_means[k], np.asarray(res.markov_random_fields[k], float))))
+    bad = len(got) != len(want) or any(not close(a, b_, rel=1e-9, ab=1e-9) for a, b_ in zip(got, want))
+    return {'reproduced': bad, 'signature': 'reported-values-are-not-densities-under-the-returned-model' if bad else None,
+            'observed': {'reported': got, 'density_under_returned_model': want, 'labels': labs}}
+
+
+_final_means = {}
+
+
+def _capture_final_means():
+    """Wrap the report helper once so that the means of the final model are known to the oracle."""
+    import fast_ticc.main_loop as ml_mod
+    if getattr(ml_mod._compute_log_likelihood_by_cluster, '_wrapped_by_verif', False):
+        return
+    inner = ml_mod._compute_log_likelihood_by_cluster
+
+    def outer(stacked, model):
+        _final_means.clear()
+        for k, cl in enumerate(model.clusters):
+            _final_means[k] = np.array(cl.stacked_data_mean, dtype=float, copy=True)
+        return inner(stacked, model)
+    outer._wrapped_by_verif = True
+    ml_mod._compute_log_likelihood_by_cluster = outer
+
+
 def replay(w):
+    if (w.get('notes') or {}).get('kind') == 'reported':
+        _capture_final_means()
     if w['obligation'] == 'likelihood_logdet_argument_in_double_range':
         return replay_site(w)
+    if w['notes'].get('kind') == 'reported':
+        return _reported(w)
     try:
         if w['notes'].get('kind') == 'point':
             real, want = _point(w)
